@@ -31,3 +31,17 @@ Definition wbatch : list change :=
 
 Definition lookup_b (c : rc) : list sym :=
   match rc_idx c with m :: _ => elements (i_get m [Some (AStr 6%N)]) | [] => [] end.
+
+(** the pinned multi-column key skipped unset optional columns without a mark:
+    two rows that differ on both indexed columns had one key *)
+Definition kT : table :=
+  mkTable 0%N [mkCol 1%N (mkColTy KOpt (mkBase TStr [] None) None 0 (Some 1)) true;
+               mkCol 2%N (mkColTy KOpt (mkBase TStr [] None) None 0 (Some 1)) true] [] true.
+Definition kspec : ispec := mkISpec [(1%N, None); (2%N, None)] false.
+Definition krow (a b : option atom) : row := {[ 1%N := VOpt a; 2%N := VOpt b ]}.
+
+Lemma K_pinned_refuted :
+  let r1 := krow None (Some (AStr 5)) in
+  let r2 := krow (Some (AStr 5)) None in
+  K_pinned kT kspec r1 = K_pinned kT kspec r2 /\ K kT kspec r1 <> K kT kspec r2.
+Proof. cbv zeta. split; [vm_compute; reflexivity|vm_compute; discriminate]. Qed.
